@@ -396,7 +396,10 @@ impl<TX> SizeKnown<TX> {
         Poll::Ready(data)
     }
 
-    pub(super) fn recv_reset(&mut self, reset_frame: &ResetStreamFrame) -> Result<(), QuicError> {
+    pub(super) fn recv_reset(
+        &mut self,
+        reset_frame: &ResetStreamFrame,
+    ) -> Result<usize, QuicError> {
         let final_size = reset_frame.final_size();
         if final_size != self.final_size {
             return Err(QuicError::new(
@@ -411,7 +414,8 @@ impl<TX> SizeKnown<TX> {
         }
         self.wake_reader();
         log_reset_event(self.stream_id, GranularStreamStates::SizeKnown);
-        Ok(())
+        // the bytes up to the final size that never arrived still consumed flow-control credit
+        Ok((self.final_size - self.rcvbuf.largest_offset()) as _)
     }
 
     pub(super) fn is_stopped(&self) -> bool {
